@@ -97,6 +97,41 @@ def idx_of(objs: List[Any], x: Any) -> Optional[int]:
     return None
 
 
+def norm_stack(st) -> tuple:
+    """Structure of a Stack for comparing two extractions: same objects (by identity) in the same places, same flags and
+    texts; errors by type and message (exception instances have no value equality)."""
+    import stackscope
+
+    def err(e):
+        if e is None:
+            return None
+        subs = tuple(err(x) for x in getattr(e, "exceptions", ()))
+        return (type(e).__name__, str(e)[:200], subs)
+
+    def cx(c):
+        return (id(c.obj), c.is_async, c.is_exiting, c.varname, c.start_line, c.description,
+                None if c.inner_stack is None else stk(c.inner_stack),
+                tuple(cx(ch) if isinstance(ch, stackscope.Context) else stk(ch) for ch in c.children), c.hide)
+
+    def fr(f):
+        return (id(f.pyframe), f.lineno, id(f.origin), tuple(cx(c) for c in f.contexts), f.hide, f.hide_line)
+
+    def stk(x):
+        return (id(x.root), tuple(fr(f) for f in x.frames), id(x.leaf) if not isinstance(x.leaf, list) else tuple(map(id, x.leaf)), err(x.error))
+
+    return stk(st)
+
+
+def any_error(st) -> bool:
+    import stackscope
+
+    def cx(c):
+        return (c.inner_stack is not None and any_error(c.inner_stack)) or any(
+            (cx(ch) if isinstance(ch, stackscope.Context) else any_error(ch)) for ch in c.children)
+
+    return st.error is not None or any(cx(c) for f in st.frames for c in f.contexts)
+
+
 class Case:
     def __init__(self, case: dict):
         self.case = case
@@ -167,8 +202,11 @@ class Case:
                 del caught
                 if len(held) >= 2:
                     self.stats["eq_checks"] += 1
-                    if not all(h == held[0] for h in held[1:]):
+                    if not all(norm_stack(h) == norm_stack(held[0]) for h in held[1:]):
                         self.problems.append(f"point {i} ({label}): two extractions of the unchanged target compare unequal")
+                    elif not any_error(held[0]) and not all(h == held[0] for h in held[1:]):
+                        self.problems.append(f"point {i} ({label}): two error-free extractions of the unchanged target are structurally "
+                                             f"identical but `==` says they differ")
                     if str(held[0]) != str(held[-1]) or str(held[0]) != s_first:
                         self.problems.append(f"point {i} ({label}): two extractions of the unchanged target format differently")
                 del held
@@ -277,7 +315,7 @@ class Case:
                     self.stats["extractions"] += c["reps"]
                     if len(held) >= 2:
                         self.stats["eq_checks"] += 1
-                        if not all(h == held[0] for h in held[1:]):
+                        if not all(norm_stack(h) == norm_stack(held[0]) for h in held[1:]):
                             self.problems.append("chain: two extractions of the unchanged target compare unequal")
                     del held
                     gc.collect()
